@@ -123,8 +123,9 @@ pub fn run(tier: Tier) -> i32 {
             for (f, b) in super::corpus::repo_lzma_files(400) {
                 ins.push(c13::In { label: format!("repo file {}", f), fmt: Fmt::Lzma, opts: Opts::default(), bytes: b });
             }
-            let full_subst = tier.pick(90usize, 400usize);
+            let full_subst = tier.pick(140usize, 400usize);
             let splice_max = tier.pick(90usize, 200usize);
+            let pair_max = tier.pick(0usize, 72usize);
             let cases = std::sync::atomic::AtomicU64::new(0);
             // flatten (input, mutation index) so that work is balanced
             let mut jobs: Vec<(usize, u8, usize)> = Vec::new(); // (input, kind, position)
@@ -171,6 +172,25 @@ pub fn run(tier: Tier) -> i32 {
                     let mut b = inp.bytes[..p].to_vec();
                     b.extend_from_slice(&inp.bytes[p / 2..]);
                     run1(b, &|| format!("duplicate [{}..{}]", p / 2, p));
+                    // thorough: every pair of positions x 4 x 4 values on short inputs
+                    if pair_max >= n {
+                        for q in (p + 1)..n {
+                            for f1 in 0..4u8 {
+                                for f2 in 0..4u8 {
+                                    let mutate = |x: u8, f: u8| match f {
+                                        0 => 0x00,
+                                        1 => 0xFF,
+                                        2 => x ^ 0x01,
+                                        _ => x ^ 0x80,
+                                    };
+                                    let mut b = inp.bytes.clone();
+                                    b[p] = mutate(b[p], f1);
+                                    b[q] = mutate(b[q], f2);
+                                    run1(b, &|| format!("bytes {} and {} mutated ({}, {})", p, q, f1, f2));
+                                }
+                            }
+                        }
+                    }
                 }
                 cases.fetch_add(local, Ordering::Relaxed);
             });
